@@ -113,6 +113,13 @@ VerCmp(x, y) == LET a == ParseVer(x) b == ParseVer(y) IN
    IF a.pep /\ b.pep THEN PepCmp(a, b) ELSE IF a.pep THEN 1 ELSE IF b.pep THEN -1 ELSE KeyCmp(LegacyKey(x), LegacyKey(y))
 
 \* ---------- canonical form ----------
+\* normal form of a record
+PrintRec(a) ==
+   (IF a.epoch # <<48>> THEN a.epoch \o <<33>> ELSE <<>>) \o Join(a.release, <<46>>)
+   \o (IF a.pre.has THEN a.pre.v[1] \o a.pre.v[2] ELSE <<>>)
+   \o (IF a.post.has THEN <<46,112,111,115,116>> \o a.post.v ELSE <<>>)
+   \o (IF a.dev.has THEN <<46,100,101,118>> \o a.dev.v ELSE <<>>)
+   \o (IF a.local.has THEN <<43>> \o Join([q \in 1..Len(a.local.v) |-> IF IsNum(a.local.v[q]) THEN DropZeros(a.local.v[q]) ELSE a.local.v[q]], <<46>>) ELSE <<>>)
 Canon(text) == LET a == ParseVer(text) IN IF ~a.pep THEN text ELSE
    (IF a.epoch # <<48>> THEN a.epoch \o <<33>> ELSE <<>>) \o Join(a.release, <<46>>)
    \o (IF a.pre.has THEN a.pre.v[1] \o a.pre.v[2] ELSE <<>>)
